@@ -220,6 +220,7 @@ func c15Alphabet(core bool) []tarx.Entry {
 			tarx.Entry{Name: n, Kind: "reg", Body: "c1"},
 			tarx.Entry{Name: n, Kind: "reg", Body: "c2-longer"},
 			tarx.Entry{Name: n, Kind: "reg", Body: "c1", Mode: 0444},
+			tarx.Entry{Name: n, Kind: "reg", Body: "c2-longer", Mode: 0444}, // read-only AND longer than what may overwrite it
 			tarx.Entry{Name: n, Kind: "reg", Body: "c1", Mode: -1},
 			tarx.Entry{Name: n, Kind: "reg", Body: "c1", MTime: T2},
 		)
@@ -251,6 +252,8 @@ func c15Alphabet(core bool) []tarx.Entry {
 		tarx.Entry{Name: "h", Kind: "hard", Target: "a"},
 		tarx.Entry{Name: "f", Kind: "fifo"},
 		tarx.Entry{Name: "pax_global_header", Kind: "xglobal"},
+		tarx.Entry{Name: "q/r/pax_global_header", Kind: "xglobal"}, // a global header prescribes nothing, whatever its name
+		tarx.Entry{Name: "d/pax_global_header", Kind: "xglobal"},
 	)
 	if !core {
 		es = append(es, tarx.Entry{Name: "c", Kind: "char"}, tarx.Entry{Name: "b", Kind: "block"},
